@@ -61,7 +61,7 @@ Print Assumptions C14_selected_has_command.
 
 (* A command disabled everywhere is never the command selected to run, whatever the plugins, defaults, arguments. *)
 Theorem C14_disabled :
-  forall E strs x cb, dict_get (canon x) (e_dis E) = Some None ->
+  forall E strs x cb, memG (canon x) (d_all (e_dis E)) = true ->
   In cb (snd (findCallbacksForArgs E strs)) -> last (fst (findCallbacksForArgs E strs)) [] <> x.
 Proof. exact disabled_never_selected. Qed.
 Print Assumptions C14_disabled.
@@ -91,43 +91,24 @@ Proof.
 Qed.
 Print Assumptions C14_qualified_refuted.
 
-(* Full statement: after ANY history of Owner.disable / Owner.enable operations (starting from nothing disabled)
-   the table behind Commands.isDisabled answers like the documented semantics spec_run: a command is disabled
-   everywhere from a successful `disable c` until a successful `enable c`, in one plugin from a successful
-   `disable P c` until a successful `enable P c`, and a refused operation changes nothing.
-   The pinned code violates it (finding C14.F24) when an everywhere-operation meets per-plugin entries of the same
-   command; proved: it holds on hist_dom (no such meeting) for every [has_cmd], and fails on witnesses outside. *)
-Theorem C14_history_disabled_on_domain :
-  forall has_cmd ops, hist_dom has_cmd S0 ops = true ->
-  forall c p, dis_disabled (o_d (owner_run has_cmd (OState [] []) ops)) c p =
-              spec_disabled (spec_run has_cmd S0 ops) c p.
-Proof. exact history_disabled_on_domain. Qed.
-Print Assumptions C14_history_disabled_on_domain.
+(* After ANY history of Owner.disable / Owner.enable operations (starting from nothing disabled) the table behind
+   Commands.isDisabled answers like the documented semantics spec_run: a command is disabled everywhere from a
+   successful `disable c` until a successful `enable c`, in one plugin from a successful `disable P c` until a
+   successful `enable P c`, and a refused operation changes nothing.  (Full statement since the repair of C14.F24:
+   DisabledCommands keeps the everywhere-entries and the per-plugin entries apart.) *)
+Theorem C14_history_disabled :
+  forall has_cmd ops c p,
+  dis_disabled (o_d (owner_run has_cmd (OState dis_empty []) ops)) c p =
+  spec_disabled (spec_run has_cmd S0 ops) c p.
+Proof. exact history_disabled. Qed.
+Print Assumptions C14_history_disabled.
 
-(* witness 1: `disable Al a`, `enable a`: the enable is refused (false) and yet Al.a is no longer disabled;
-   witness 2: `disable Al a`, `disable a`, `enable a` (all succeed): al.a stays listed, Al.a is no longer disabled *)
-Theorem C14_history_disabled_refuted :
-  (exists has_cmd ops o c p, hist_dom has_cmd S0 (ops ++ [o]) = false /\
-     snd (owner_step has_cmd (owner_run has_cmd (OState [] []) ops) o) = false /\
-     spec_disabled (spec_run has_cmd S0 (ops ++ [o])) c p = true /\
-     dis_disabled (o_d (owner_run has_cmd (OState [] []) (ops ++ [o]))) c p = false) /\
-  (exists has_cmd ops c p, hist_dom has_cmd S0 ops = false /\
-     spec_disabled (spec_run has_cmd S0 ops) c p = true /\
-     dis_disabled (o_d (owner_run has_cmd (OState [] []) ops)) c p = false).
-Proof.
-  split.
-  - exists hc_all, [ODisable (Some s_al) s_a], (OEnable None s_a), s_a, s_al. exact history_refuted1.
-  - exists hc_all, h_overwrite, s_a, s_al. exact history_refuted2.
-Qed.
-Print Assumptions C14_history_disabled_refuted.
-
-(* On hist_dom, a command the history left disabled everywhere is never the command selected to run,
+(* A command the history left disabled everywhere is never the command selected to run,
    whatever the plugins, defaults, important plugins and arguments. *)
 Theorem C14_history_never_selected :
   forall has_cmd ops cbs defaults important strs x cb,
-  hist_dom has_cmd S0 ops = true ->
   memG (canon x) (s_G (spec_run has_cmd S0 ops)) = true ->
-  let E := Env cbs (o_d (owner_run has_cmd (OState [] []) ops)) defaults important in
+  let E := Env cbs (o_d (owner_run has_cmd (OState dis_empty []) ops)) defaults important in
   In cb (snd (findCallbacksForArgs E strs)) -> last (fst (findCallbacksForArgs E strs)) [] <> x.
 Proof. exact history_never_selected. Qed.
 Print Assumptions C14_history_never_selected.
